@@ -105,6 +105,56 @@ func faultScenario(id string, cfg StackCfg, proto string, cmd Command, f FaultSp
 	return sc
 }
 
+// answeredOrError: on a connection that stays open the last thing the client received for the
+// command is its terminator / acknowledgement or an error reply (never nothing, never a torso).
+func answeredOrError(proto string, cmd Command, body []byte) string {
+	if cmd.Quiet {
+		return ""
+	}
+	if proto == "text" {
+		its, err := decodeTextStrict(body)
+		if err != nil {
+			return "undecodable reply: " + err.Error()
+		}
+		if len(its) == 0 {
+			return "nothing was sent in reply"
+		}
+		last := its[len(its)-1]
+		if last.Value {
+			return "the reply stops after a VALUE block, without END or an error line"
+		}
+		return ""
+	}
+	fs, err := decodeBinStrict(body)
+	if err != nil {
+		return "undecodable reply: " + err.Error()
+	}
+	if len(fs) == 0 {
+		if cmd.Kind == "get" && cmd.Keys[len(cmd.Keys)-1].Quiet && !cmd.NoopEnd {
+			return ""
+		}
+		return "nothing was sent in reply"
+	}
+	last := fs[len(fs)-1]
+	if last.Status != 0 && last.Status != 1 {
+		return "" // an error reply
+	}
+	want := cmd.Opaque
+	if cmd.Kind == "get" {
+		lk := cmd.Keys[len(cmd.Keys)-1]
+		want = lk.Opaque
+		if cmd.NoopEnd {
+			want = cmd.NoopOpq
+		} else if lk.Quiet {
+			return ""
+		}
+	}
+	if last.Opaque != want {
+		return fmt.Sprintf("the last frame received has opaque %d; the frame that ends the request (opaque %d) never came", last.Opaque, want)
+	}
+	return ""
+}
+
 func init() {
 	checks["C12"] = func(rep *Report, tier string, seed int64) {
 		rep.Rule = "locked stacks (multi- and single-reader, pass-through and chunked L1, main and batch port sharing the lock set), rend's own lockers wrapped by logging lockers (hook): for every command kind x protocol x fault {backend connection cut before / after the request, error status} x tier x request index (quick: a seeded sample of the grid; thorough: the whole grid), with the key cached or lost in L1: the command is issued on one connection, then the same keys are used from two other connections; oracle: the lock log of every command is a sequence of acquire/release pairs of one stripe (never two locks, none left), no follow-up command hangs, and whenever the model says the connection is closed it is; reply bytes, endings, backend traces, contents and the lock log are compared with the Lean model on every step; distinct = distinct (configuration, protocol, command, fault, L1 state)"
@@ -131,7 +181,10 @@ func init() {
 							if lose && cfg.Orca != "l1l2" {
 								continue
 							}
-							if r.Float64() > sample && os.Getenv("VERIF_ONLY") == "" {
+							// connection cuts under a get (the back-fill write panics on an I/O error,
+							// inside the per-key recover of the wrapper) are always run
+							always := cmd.Kind == "get" && f.Kind != "status" && f.Tier == "L1" && f.Index <= 2 && proto == "bin"
+							if r.Float64() > sample && !always && os.Getenv("VERIF_ONLY") == "" {
 								continue
 							}
 							tag := fmt.Sprintf("%d/%s/%d/%d/%v", ci, proto, cmi, fi, lose)
@@ -166,6 +219,20 @@ func init() {
 								if msg := pairedLocks(ob.Locks); msg != "" {
 									rep.Violations = append(rep.Violations, Violation{What: fmt.Sprintf("lock log of step %d (%s) under fault %s: %s", i, sc.Steps[i].Cmd.Describe(), f, msg),
 										Signature: "locks-unpaired:" + sc.Steps[i].Cmd.Kind, Replay: map[string]interface{}{"scenario": describeScenario(sc), "step": i, "lock_log": ob.Locks, "driver_script": out.Script}})
+								}
+								if ob.Ending == "eof" {
+									// the connection stays open: the request must have been answered (a
+									// swallowed panic leaves the client waiting for the terminator)
+									pr, sl := "bin", len(binSentinelReply)
+									for _, c := range sc.Conns {
+										if c.ID == sc.Steps[i].Conn && c.Proto == "text" {
+											pr, sl = "text", len(textSentinelReply)
+										}
+									}
+									if msg := answeredOrError(pr, sc.Steps[i].Cmd, ob.Out[:len(ob.Out)-sl]); msg != "" {
+										rep.Violations = append(rep.Violations, Violation{What: fmt.Sprintf("step %d (%s) under fault %s: connection left open but %s", i, sc.Steps[i].Cmd.Describe(), f, msg),
+											Signature: "unanswered:" + sc.Steps[i].Cmd.Kind + ":" + f.Kind, Replay: map[string]interface{}{"scenario": describeScenario(sc), "step": i, "reply": canonN(300, ob.Out), "driver_script": out.Script}})
+									}
 								}
 								if ob.Ending == "hang" {
 									rep.Violations = append(rep.Violations, Violation{What: fmt.Sprintf("step %d (%s) after fault %s on %s: no reply and no close within the timeout (a lock is still held, or the client is left waiting)", i, sc.Steps[i].Cmd.Describe(), f, cmd.Describe()),
